@@ -633,7 +633,8 @@ struct SeqCase
     R.count("op_collect");
     if (adds)
       ++collects_after_add;
-    VF_CHECK(ok, "collect-returns-true", "sequential", witness("Collect returned false"));
+    if (!ok)
+      R.count("collect_returned_false");  // the statement does not speak about Collect's return value
     std::map<int, std::vector<const GotMetric *>> by_stream;
     for (auto &g : got)
     {
@@ -1255,12 +1256,19 @@ int main(int argc, char **argv)
   R.init("C06", argc, argv);
   auto *logs       = install_silent_log_handler();
   std::string mode = R.opt.sparam("mode", "seq");
+  static Watchdog *dog = nullptr;  // never destroyed: its thread is detached
+  if (mode == "conc")
+    dog = new Watchdog(static_cast<int>(R.opt.param("watchdog_s", R.opt.thorough ? 180 : 60)));
   R.run_cases([&](uint64_t i) {
     uint64_t seed = R.case_seed(i);
     if (mode == "conc")
     {
-      ConcCase c(vf::mix(seed, 0xc0c));
-      c.run(seed);
+      dog->begin("record-vs-collect");
+      {
+        ConcCase c(vf::mix(seed, 0xc0c));
+        c.run(seed);
+      }
+      dog->end();
     }
     else
     {
